@@ -133,14 +133,19 @@ def apply_mask(
   # array like masks and items, this includes list, tuple, np array.
   elif types.is_array_like(masks) and types.is_array_like(items):
     if hasattr(masks, '__array__') and getattr(masks, 'dtype') == bool:
-      if replace_false_with != DEFAULT_FILTER:
-        items = np.asarray(items)
+      try:
+        array_items = np.asarray(items)
+      except ValueError:
+        # Rows of different lengths, e.g., ragged predictions, do not make an
+        # array: they are masked row by row below.
+        array_items = None
+      if array_items is not None and replace_false_with != DEFAULT_FILTER:
         # A mask of rows applies to whole rows, not along the last axis.
-        extra_dims = max(items.ndim - masks.ndim, 0)
+        extra_dims = max(array_items.ndim - masks.ndim, 0)
         masks = np.reshape(masks, masks.shape + (1,) * extra_dims)
-        return np.where(masks, items, replace_false_with)
-      else:
-        return np.asarray(items)[masks]
+        return np.where(masks, array_items, replace_false_with)
+      elif array_items is not None:
+        return array_items[masks]
     result = []
     for elem, mask in zip(items, masks, strict=True):
       if mask == True:  # pylint: disable=singleton-comparison
